@@ -67,6 +67,8 @@ type T struct {
 	done   bool
 	daemon bool
 	s      *Sched
+	points int // scheduling points passed by this thread (parks and fast-pathed yields)
+	paused *T  // held back until this (injected) thread blocks or finishes
 }
 
 type timer struct {
@@ -114,6 +116,52 @@ type Sched struct {
 
 	noTimerAlt bool
 	vals       map[string]any
+	inj        *injection
+}
+
+// injection: run f on a fresh thread exactly when the target thread reaches its k-th scheduling point,
+// and hold the target there until the injected thread blocks or finishes ("inject at every point").
+type injection struct {
+	target  string
+	at      int
+	f       func()
+	started bool
+	th      *T
+}
+
+// InjectAt arms an injection: when the thread named target passes k more scheduling points, f is started
+// on a new thread and runs before the target continues. If the target finishes earlier, f runs then.
+func InjectAt(target string, k int, f func()) {
+	s := cur
+	if s == nil {
+		return
+	}
+	base := 0
+	for _, t := range s.threads {
+		if t.name == target {
+			base = t.points
+		}
+	}
+	s.inj = &injection{target: target, at: base + k, f: f}
+}
+
+// Injected reports whether the armed injection has started.
+func Injected() bool {
+	s := cur
+	return s != nil && s.inj != nil && s.inj.started
+}
+
+// notePoint counts a scheduling point of t and fires the injection when due. Returns true if it fired.
+func (s *Sched) notePoint(t *T) bool {
+	t.points++
+	in := s.inj
+	if in == nil || in.started || t.name != in.target || t.points < in.at {
+		return false
+	}
+	in.started = true
+	in.th = s.newThread("injected", in.f)
+	t.paused = in.th
+	return true
 }
 
 var cur *Sched
@@ -201,6 +249,10 @@ func (s *Sched) newThread(name string, f func()) *T {
 			return
 		}
 		t.done = true
+		if in := s.inj; in != nil && !in.started && t.name == in.target {
+			in.started = true
+			in.th = s.newThread("injected", in.f)
+		}
 		if t.id == 0 {
 			s.endNoExit(StatusOK)
 			return
@@ -298,6 +350,7 @@ func (s *Sched) park(op *pendingOp) {
 		runtime.Goexit()
 	}
 	t := s.running
+	s.notePoint(t)
 	t.op = op
 	s.dispatch(t)
 	t.op = nil
@@ -306,6 +359,13 @@ func (s *Sched) park(op *pendingOp) {
 func (t *T) enabled(s *Sched) bool {
 	if t.done {
 		return false
+	}
+	if p := t.paused; p != nil {
+		if p.done || (p.op != nil && !p.enabled(s)) {
+			t.paused = nil
+		} else {
+			return false
+		}
 	}
 	op := t.op
 	if op == nil {
@@ -537,6 +597,10 @@ func Yield(id int) {
 	}
 	// fast path: nobody else could run
 	self := s.running
+	if s.inj != nil && !s.inj.started && self.name == s.inj.target && self.points+1 >= s.inj.at {
+		s.park(&pendingOp{desc: yieldDesc(id)})
+		return
+	}
 	other := false
 	for _, t := range s.threads {
 		if t != self && t.enabled(s) {
@@ -546,6 +610,7 @@ func Yield(id int) {
 	}
 	if !other {
 		if _, ok := s.nextDeadline(); !ok || s.noTimerAlt {
+			self.points++
 			return
 		}
 	}
